@@ -103,6 +103,22 @@ Theorem C12_proposals_roundtrip_with_rebuild : forall now s, queues_sound now s 
 Proof. exact roundtrip_props_with_rebuild. Qed.
 Print Assumptions C12_proposals_roundtrip_with_rebuild.
 
+(* restart schedules: whatever the genesis time of the restart, a proposal in voting / waiting for enactment
+   is back in its queue; a rebuild that looks at the genesis time strands it (witness: restart after the
+   enactment end - the seeded change C12-b), which the harness observes by re-importing later *)
+Theorem C12_reimport_requeues_at_any_genesis_time : forall now s p, In p (proposals s) ->
+  (p_result p = Enactment -> In (p_id p) (enact_q (reimport_props true now s))) /\
+  (p_result p = Pending -> In (p_id p) (active_q (reimport_props true now s))).
+Proof. exact reimport_requeues_at_any_genesis_time. Qed.
+Print Assumptions C12_reimport_requeues_at_any_genesis_time.
+
+Theorem C12_timegated_rebuild_strands_enactment :
+  exists s now ts, map p_result (proposals (run_blocks (fun _ => Passed) s ts)) = [Passed] /\
+    (forall ts', map p_result (proposals (run_blocks (fun _ => Passed) (import_props_timegated now (export_props s)) ts')) = [Enactment]) /\
+    map p_result (proposals (run_blocks (fun _ => Passed) (reimport_props true now s) ts)) = [Passed].
+Proof. exact timegated_rebuild_strands_enactment. Qed.
+Print Assumptions C12_timegated_rebuild_strands_enactment.
+
 (* ---- multistaking.  [reimport_ms ctr]: ctr = "InitGenesis continues the id counters after the highest
    imported id" ([ms_restores_counters]). *)
 Theorem C12_multistaking_roundtrip_iff : forall s,
